@@ -45,13 +45,14 @@ def run(repo, chk):
     chk.note_undecided('quality of overlap detection', 'the property for parts whose logits have fewer rows than characters')
     R = Rules(repo, chk)
     refcheck.run_all(R, repo, chk, 'RECUR', 'merge_ref.py', WHAT)
+    refcheck.run_all(R, repo, chk, 'RECUR', 'seqalign_ref.py', {'levenshtein_distance': 'error rate of an overlap candidate'}, only=('levenshtein_distance',))
     R.run('NEGSLICE', negslice, repo, chk)
     R.run('PAIR', pair, repo, Soft(chk), soft_for=[M + ':merge_transcriptions_and_logits'])
     refcheck.run_all(R, repo, chk, 'RECUR', 'ocr_ref.py', {'process_lines': 'window splitting with a quarter-width overlap; parts merged per line with the recorded spans'}, only=('process_lines',))
     R.run('PAIR', windows, repo, Soft(chk), soft_for=[M + ':BaseEngineLineOCR.process_lines'])
     chk.expect('NEGSLICE', 3)
     chk.expect('PAIR', 5)
-    chk.expect('RECUR', 3)
+    chk.expect('RECUR', 4)
 
 
 def negslice(repo, chk):
